@@ -1,7 +1,7 @@
 SPECIFICATION Spec
-CONSTANT MaxAny = 3
-CONSTANT MaxOps = 3
-CONSTANT Budget = 2
+CONSTANT MaxAny = 2
+CONSTANT MaxOps = 2
+CONSTANT Budget = 1
 CONSTANT Deviations = {}
 INVARIANT Total
 INVARIANT Consistent
